@@ -236,6 +236,7 @@ func (p pseg) String() string {
 }
 
 type PXPath struct {
+	Mem    map[string]*T
 	Terms  map[string]*T
 	Order  []string
 	Facts  Facts
@@ -382,7 +383,7 @@ func (c *Ctx) Paths(fn *ssa.Function, cfg PXConfig) ([]*PXPath, bool) {
 		fr.args = append(fr.args, &T{Op: "param", Aux: name, Typ: p.Type()})
 	}
 	r.block(st, fr, fn.Blocks[0], nil, func(st *pxState, _ *pxFrame, res []*T, end string) {
-		r.paths = append(r.paths, &PXPath{Facts: st.facts, Terms: st.terms, Order: st.order, Events: st.events, Ret: res, End: end, Trace: st.trace})
+		r.paths = append(r.paths, &PXPath{Facts: st.facts, Mem: st.mem, Terms: st.terms, Order: st.order, Events: st.events, Ret: res, End: end, Trace: st.trace})
 	})
 	return r.paths, r.trunc
 }
@@ -769,6 +770,9 @@ func (r *pxRun) eval(st *pxState, fr *pxFrame, v ssa.Value) *T {
 		}
 		if x.Low == nil && x.High == nil {
 			return base
+		}
+		if h, ok := hi.intVal(); ok && h == 0 && x.High != nil {
+			return &T{Op: "elems", HasEl: true, Typ: x.Type()} // x[:0]: an empty slice
 		}
 		if s, ok := base.strVal(); ok {
 			l, ok1 := lo.intVal()
@@ -1264,7 +1268,7 @@ func (r *pxRun) call(st *pxState, fr *pxFrame, x *ssa.Call, k func(*pxState, *px
 			for top.parent != nil {
 				top = top.parent
 			}
-			r.paths = append(r.paths, &PXPath{Facts: st2.facts, Terms: st2.terms, Order: st2.order, Events: st2.events, End: "panic", Trace: st2.trace})
+			r.paths = append(r.paths, &PXPath{Facts: st2.facts, Mem: st2.mem, Terms: st2.terms, Order: st2.order, Events: st2.events, End: "panic", Trace: st2.trace})
 			return
 		}
 		var t *T
@@ -1394,7 +1398,7 @@ func termTemplate(t *T) []pseg {
 			}
 			if allBytes {
 				for _, a := range t.A {
-					if a.Nil {
+					if a.Nil || (a.HasEl && len(a.Elems) == 0) {
 						continue
 					}
 					walk(a)
@@ -1601,4 +1605,71 @@ func splitConstEq(body string) (c, x string, ok bool) {
 		}
 	}
 	return
+}
+
+// Deep renders a term with pointers to path-local objects replaced by their final contents, so that
+// values built by different code (different allocation numbers) compare equal.
+func (p *PXPath) Deep(t *T) string { return p.deep(t, 0) }
+
+func (p *PXPath) deep(t *T, depth int) string {
+	if t == nil {
+		return "<nil>"
+	}
+	if depth > 6 {
+		return "…"
+	}
+	switch t.Op {
+	case "alloc":
+		k := "o" + strconv.Itoa(t.Obj)
+		if v, ok := p.Mem[k]; ok {
+			return "&" + p.deep(v, depth+1)
+		}
+		var fs []string
+		for key, v := range p.Mem {
+			if strings.HasPrefix(key, k+".") && !strings.ContainsAny(key[len(k)+1:], ".[") {
+				fs = append(fs, key[len(k)+1:]+":"+p.deep(v, depth+1))
+			}
+		}
+		sort.Strings(fs)
+		if txt, ok := p.Mem[k+"$text"]; ok {
+			return "&buffer(" + p.deep(txt, depth+1) + ")"
+		}
+		return "&{" + strings.Join(fs, ",") + "}"
+	case "struct":
+		var ks []string
+		for k := range t.Fields {
+			ks = append(ks, k)
+		}
+		sort.Strings(ks)
+		var ps []string
+		for _, k := range ks {
+			ps = append(ps, k+":"+p.deep(t.Fields[k], depth+1))
+		}
+		return "{" + strings.Join(ps, ",") + "}"
+	case "elems":
+		var as []string
+		for _, a := range t.Elems {
+			as = append(as, p.deep(a, depth+1))
+		}
+		return "[" + strings.Join(as, ",") + "]"
+	case "append":
+		var as []string
+		for _, a := range t.A {
+			as = append(as, p.deep(a, depth+1))
+		}
+		return "append(" + strings.Join(as, ", ") + ")"
+	case "call":
+		if len(t.A) > 0 {
+			var as []string
+			for _, a := range t.A {
+				as = append(as, p.deep(a, depth+1))
+			}
+			s := t.Aux + "(" + strings.Join(as, ", ") + ")"
+			if t.Inst > 0 {
+				s += "@"
+			}
+			return s
+		}
+	}
+	return t.String()
 }
